@@ -16,11 +16,16 @@ NOT_APPLICABLE = [
     {"property_id": "C17", "reason": "a single-threaded in-memory multi-mapping against a list model: sequential histories without faults, interleavings or time - input generation, not simulation."},
     {"property_id": "C18", "reason": "URL reconstruction and component replacement are pure functions of strings/dicts (WSGI-vs-ASGI agreement of request.url is covered by C04's differential run)."},
 ]
-PENDING = ["C01", "C02", "C04", "C05", "C11", "C12", "C14", "C15", "C16", "C20"]
+PENDING = ["C01", "C02", "C04", "C11", "C12", "C14", "C15", "C16", "C20"]
 for _p in PENDING:
     NOT_APPLICABLE.append({"property_id": _p, "reason": "not yet claimed: the simulation check for this property is designed (DESIGN.md section 3) but not built yet"})
 ENGINES.append({"name": "SimThreads", "path": "sim/threads.py", "serves_properties": ["C06"], "kind_free_text": "real threads run one at a time under a seeded baton scheduler; stub queue.Queue/Future/executor/Thread/time with stdlib semantics; line-level pre-emption via sys.settrace in baize/wsgi/responses.py; virtual time and deadlock detection"})
+ENGINES.append({"name": "SimFS", "path": "sim/fs.py", "serves_properties": ["C05"], "kind_free_text": "real temp files with an os.stat overlay for virtual mtime/ctime, and seeded failures of os.open/os.read/os.lseek/open() at a planned call index"})
 CLAIMED = {
+    "C05": {"engine": "SimLoop + SimASGI / SimWSGI protocol monitors, SimFS I/O faults, SimThreads for WSGI SSE", "level": "fault_enumeration", "design_ref": "3.4",
+            "technique": "deterministic simulation with fault enumeration: disconnect / raising send / early close / producer exception / I/O error at every emission point, protocol-monitor oracle",
+            "text": "For each seeded (interface, response recipe over every response class, request method/Range/If-Range, server flavour) the fault-free run gives N emission points; the scenario is re-run with each fault kind at each point (client disconnect via receive(), send() raising, server close() after the j-th WSGI item, producer raising at step k, os.open/os.read/os.lseek/open()/read() failing at call i). ASGI-HTTP and PEP 3333 monitors must never trip and only the injected or the producer's own exception may leave the call. Fault points per scenario are enumerated completely (capped at 16 per kind); scenarios are sampled.",
+            "note": "The monitors are models of the two gateway specifications written for this check; caller-supplied header values are kept legal."},
     "C19": {"engine": "SimLoop + SimASGI (ASGI SSE), SimThreads + SimWSGI (WSGI SSE), streaming WHATWG EventSource parser as client peer", "level": "exploration", "design_ref": "3.12",
             "technique": "deterministic simulation: seeded producer/ping-timer/consumer schedules and transport re-chunking, EventSource reference parser as oracle",
             "text": "Seeded search over event sequences (data over CR/LF/CRLF and the other Unicode separators, names, ids, retry, same dict yielded twice, charsets) x producer delays around the ping interval x send latencies / consumer delays x thread pre-emption x transport re-chunking; the delivered byte stream is parsed by a streaming WHATWG EventSource parser and each non-comment block must have the effect of the yielded item, pings none, order preserved.",
